@@ -24,7 +24,8 @@ class Field:
 
 
 class SrcSchema:
-    def __init__(self, root="/repo/rust/altrios-core/src"):
+    def __init__(self, root=None):
+        root = root or os.path.join(os.environ.get("NREL_ALTRIOS_REPO", "/repo"), "rust/altrios-core/src")
         self.structs = {}  # name -> [Field]
         self.all_structs = {}  # name -> [[Field]] (same name in several modules)
         self.qual = {}  # "<file stem>::<Name>" -> [Field]
